@@ -32,8 +32,9 @@ let e_handler (args : string list) : string =
   | ["simple"; a] ->
       let x = n_of_string a in
       let xi = int_of_n x in
-      (* RFC 8949 3.3: values 24..31 have no well-formed encoding; the encoder has to refuse them *)
-      with_spec (match enc_simple x with Some cs -> hex_of_chunks cs | None -> "err") (if xi >= 24 && xi < 32 then "err" else spec_item (ISimple x))
+      (* RFC 8949 3.3: the values 24..31 have no well-formed encoding, so the specification has nothing an encoder could
+         write for them (S=err).  The code (and hence the model) writes f8 x: open finding F2b, class f2b of checks/C03.py. *)
+      with_spec (hex_of_chunks (enc_simple x)) (if xi >= 24 && xi < 32 then "err" else spec_item (ISimple x))
   | ["bool"; a] -> let b = (a = "true") in with_spec (hex_of_chunks (enc_bool b)) (spec_item (ISimple (n_of_int (if b then 21 else 20))))
   | ["null"] -> with_spec (hex_of_chunks enc_null) (spec_item (ISimple (n_of_int 22)))
   | ["undefined"] -> with_spec (hex_of_chunks enc_undefined) (spec_item (ISimple (n_of_int 23)))
